@@ -108,6 +108,19 @@ def main():
     cases = load_corpus(pid)
     n_corpus = len(cases)
     gen = mod.generate(rng, tier)
+    # change-triggered escalation (DESIGN 1.3): when the anchored source files differ from the digest recorded at
+    # modelling time the run explores more (two further generator rounds with fresh PRNG streams). A changed digest
+    # alone is never an alarm - a harmless rewrite must stay quiet.
+    digest_now = C.anchors_digest(getattr(mod, 'ANCHOR_FILES', []))
+    try:
+        baseline = json.loads((C.VERIF / 'harness' / 'anchors.json').read_text()).get(pid)
+    except Exception:
+        baseline = None
+    escalated = baseline is not None and baseline != digest_now and not os.environ.get('VERIF_NO_ESCALATION')
+    if escalated:
+        for r in (1, 2):
+            gen += mod.generate(random.Random(seed * 1000003 + sum(map(ord, pid)) + 7919 * r), tier)
+        notes.append('anchored sources changed since the model was written (digest %s != %s): generator rounds tripled' % (digest_now[:10], baseline[:10]))
     for c in gen:
         c.setdefault('origin', 'gen')
     cases.extend(gen)
@@ -262,7 +275,7 @@ def main():
         oracle_failures=len(oracle_fail),
         known_findings_seen=list(seen_known.keys()),
         distribution=dict(dist),
-        anchors_digest=C.anchors_digest(getattr(mod, 'ANCHOR_FILES', [])),
+        anchors_digest=digest_now, anchors_baseline=baseline, escalated=escalated,
         notes=notes + list(extra.get('notes', [])),
     )
     for k, v in extra.items():
